@@ -664,11 +664,13 @@ impl<const P: u8, const G: i8, const N: usize, const D: usize> NbDut<P, G, N, D>
                 return OpResult::Unexpected(format!("no timeout pending in stage {stage:?}"));
             };
             {
+                // the board's clock is a 32-bit millisecond counter: `t` is to be read modulo 2^32
                 let mut e = self.env.borrow_mut();
-                let target = t as u64 + late;
-                if target > e.now_ms {
-                    e.now_ms = target;
+                let ahead = t.wrapping_sub(e.now_ms as u32);
+                if ahead < (1 << 31) {
+                    e.now_ms += ahead as u64;
                 }
+                e.now_ms += late;
             }
             resp = match self.event(nb_device::Event::TimeoutFired, "TimeoutFired") {
                 Ok(r) => r,
